@@ -69,6 +69,9 @@ pub fn new_world(env: &RealEnv, dir: &std::path::Path, mut proj: Project, rng: &
         if s.discovers {
             if rng.chance(2, 3) {
                 s.depfile = Some(format!("{}.d", s.outs[0]));
+                // both mechanisms switched on: a compiler that writes a depfile and prints no include
+                // notes reports exactly the depfile's prerequisites
+                s.msvc = rng.chance(1, 4);
             } else {
                 s.msvc = true;
             }
@@ -316,7 +319,7 @@ fn general_case(ctx: &Ctx, env: &RealEnv, dir: &std::path::Path, case: u64, seed
     let mut w = new_world(env, dir, proj, &mut rng);
     if depfiles_only {
         for s in w.proj.steps.iter_mut() {
-            if s.msvc {
+            if s.msvc && s.depfile.is_none() {
                 s.msvc = false;
                 s.depfile = Some(format!("{}.d", s.outs[0]));
             }
@@ -335,6 +338,21 @@ fn general_case(ctx: &Ctx, env: &RealEnv, dir: &std::path::Path, case: u64, seed
             })
             .collect();
         w.write_source("gen.in", rng.next());
+        if w.proj.sources.iter().any(|s| s == "gen.h") {
+            w.write_source("gen.h", rng.next());
+        }
+        // a generator that discovers inputs reports them through a depfile next to the manifest
+        let dep = format!("{}.d", w.proj.manifest);
+        let mut gens = std::mem::take(&mut w.next_gens);
+        for p in std::iter::once(&mut w.proj).chain(gens.iter_mut()) {
+            for s in p.steps.iter_mut().filter(|s| s.effect == Effect::Generator && s.discovers) {
+                s.depfile = Some(dep.clone());
+            }
+        }
+        w.next_gens = gens;
+        if rng.chance(1, 3) {
+            w.ropts.split_include = Some("rules.ninja".into());
+        }
         w.write_manifest();
     }
     // C02, every third case: response files whose content changes (often without changing length)
